@@ -7,7 +7,7 @@ def TM(name, fn, entry, cap=4, **kw):
     d = dict(name=name, tu=DRV, spec_headers=['spec/ghost.h', 'spec/tables_spec.h'], models=[],
              harness='harness/c20_tagmap.c', roots=['gdstk::TagMap::' + fn], entry=entry, enforce='TagMap__' + fn,
              replace=['hash_uint64_t__uint64_t'], kind='bounded',
-             bound='table capacity %d (growth to %d included); histories, keys, values and the hash function are arbitrary' % (cap, max(8, 2 * cap)),
+             bound='table capacity %d; histories, keys, values and the hash function are arbitrary' % cap,
              defines={'VF_CAP': cap, 'VF_CAPMAX': max(8, 2 * cap)}, unwind=max(8, 2 * cap) + 2, timeout=1800, tier='quick',
              native_include=[DRV])
     d.update(kw)
@@ -26,6 +26,16 @@ GROUPS = [
     TM('tagmap_has_key', 'has_key', 'h_tm_has'),
     # NULL + 0 is well defined in C++ (the source language) but flagged by CBMC's C pointer-overflow check
     TM('tagmap_next', 'next', 'h_tm_next', replace=[], drop_checks=['--pointer-overflow-check']),
+] + [
+    dict(name=nm, tu=DRV, spec_headers=['spec/ghost.h', 'spec/sort_spec.h'], models=[], harness='harness/c20_sort.c',
+         roots=roots, entry=entry, enforce=fn, kind='bounded',
+         bound='arrays of up to %d doubles without NaN' % n + '  (every content), default ordering; loops unwound with unwinding assertions',
+         defines={'VF_SORTN': n}, unwind=n + 3, timeout=1500, tier='quick', native_include=[DRV])
+    for nm, roots, entry, fn, n in [
+        ('heap_sort', ['flat:heap_sort_double', 'flat:default_sorted_double'], 'h_heap_sort', 'heap_sort_double', 4),
+        ('insertion_sort', ['flat:insertion_sort_double', 'flat:default_sorted_double'], 'h_insertion_sort', 'insertion_sort_double', 6),
+        ('sort', ['flat:sort_double__double_p_int64_t_fn_265ab2_p', 'flat:default_sorted_double'], 'h_sort', 'sort_double__double_p_int64_t_fn_265ab2_p', 4),
+    ]
 ]
 TRUSTED_BASE = [
     'clang 14 AST of drivers/c20_inst.cpp (includes only real gdstk headers + explicit template instantiations)',
